@@ -2113,8 +2113,9 @@ class IrregularLattice(Lattice):
         super().save_hdf5(hdf5_saver, h5gr, subpath)
         hdf5_saver.save(self.regular_lattice, subpath + 'regular_lattice')
         hdf5_saver.save(self.remove, subpath + 'remove')
-        hdf5_saver.save(self.add[0], subpath + 'add_lat_idx')
-        hdf5_saver.save(self.add[1], subpath + 'add_mps_idx')
+        if self.add is not None:
+            hdf5_saver.save(self.add[0], subpath + 'add_lat_idx')
+            hdf5_saver.save(self.add[1], subpath + 'add_mps_idx')
         add_unit_cell = self.unit_cell[len(self.regular_lattice.unit_cell) :]
         add_positions = self.unit_cell_positions[len(self.regular_lattice.unit_cell_positions) :]
         hdf5_saver.save(add_unit_cell, subpath + 'add_unit_cell')
@@ -2124,9 +2125,12 @@ class IrregularLattice(Lattice):
     def from_hdf5(cls, hdf5_loader, h5gr, subpath):
         obj = super().from_hdf5(hdf5_loader, h5gr, subpath)
         obj.regular_lattice = hdf5_loader.load(subpath + 'regular_lattice')
-        lat_idx = hdf5_loader.load(subpath + 'add_lat_idx')
-        mps_idx = hdf5_loader.load(subpath + 'add_mps_idx')
-        obj.add = (lat_idx, mps_idx)
+        if 'add_lat_idx' in h5gr:
+            lat_idx = hdf5_loader.load(subpath + 'add_lat_idx')
+            mps_idx = hdf5_loader.load(subpath + 'add_mps_idx')
+            obj.add = (lat_idx, mps_idx)
+        else:
+            obj.add = None
         obj.remove = hdf5_loader.load(subpath + 'remove')
         return obj
 
